@@ -23,7 +23,7 @@ def run(ctx):
                 "non-empty expected result")
     ctx.assumptions = ["selector sets are compared, not order or multiplicity"]
     ctx.build()
-    r = ctx.tlc("MC_CosmeticEngine", CFG % (3 if ctx.tier == "quick" else 5), timeout=1200)
+    r = ctx.tlc("MC_CosmeticEngine", CFG % (3 if ctx.tier == "quick" else 6), timeout=1200)
     recs = [x for x in r.records if x.get("kind") in ("POOL", "CASE")]
     s, mism = replay_cases(ctx, recs)
     ctx.evaluations = s["evaluations"]
@@ -34,7 +34,7 @@ def run(ctx):
         ctx.sample(t)
     # ---- code -> spec: element-hiding rules of the bundled lists, reference bits from CosmeticRule.Match ----
     tr = os.path.join(ctx.work, "cos-trace.ndjson")
-    d = ctx.vh(["drive-cosmetic", "n=%d" % (300 if ctx.tier == "quick" else 5000), "out=" + tr], timeout=3000)
+    d = ctx.vh(["drive-cosmetic", "n=%d" % (300 if ctx.tier == "quick" else 20000), "out=" + tr], timeout=3000)
     nev, rejects = ctx.validate_trace("Trace_Cosmetic", tr, chunk=150, procs=(2 if ctx.tier == "quick" else 8))
     ctx.validated += nev - len(rejects)
     ctx.evaluations += nev
